@@ -5,6 +5,7 @@
  */
 
 use alloc::string::ToString;
+use alloc::vec::Vec;
 use regex::Regex;
 use alloc::borrow::ToOwned;
 use crate::config::SmartCalcConfig;
@@ -13,8 +14,25 @@ use crate::types::{TokenType};
 use crate::token::ui_token::{UiTokenType};
 
 pub fn money_regex_parser(config: &SmartCalcConfig, tokinizer: &mut Tokinizer, group_item: &[Regex]) {
+    /* Hexadecimal, octal and binary literals can contain a digit followed by the letters of a currency code (0xAF00, 0x1AED), they are not money */
+    let mut based_numbers = Vec::new();
+    if let Some(number_items) = config.token_parse_regex.get("number") {
+        for re in number_items.iter() {
+            for capture in re.captures_iter(&tokinizer.data) {
+                if let Some(based_number) = capture.name("HEX_FULL").or_else(|| capture.name("OCTAL_FULL")).or_else(|| capture.name("BINARY_FULL")) {
+                    based_numbers.push((based_number.start(), based_number.end()));
+                }
+            }
+        }
+    }
+
     for re in group_item.iter() {
         for capture in re.captures_iter(&tokinizer.data.to_owned()) {
+            let start = capture.get(0).unwrap().start();
+            if based_numbers.iter().any(|(based_start, based_end)| start >= *based_start && start < *based_end) {
+                continue;
+            }
+
             /* Check price value */
             let price = match capture.name("PRICE").unwrap().as_str().replace(&config.thousand_separator[..], "").replace(&config.decimal_seperator[..], ".").parse::<f64>() {
                 Ok(price) => match capture.name("NOTATION") {
